@@ -848,9 +848,35 @@ class Evaluator:
             v = self._str_method(short, cal, args, e)
             if v is not None:
                 return v
+        if args and args[0][0] == "rec" and set(args[0][1]) == {"start", "end"} and all(v[0] == "int" for v in args[0][1].values()) \
+                and short in ("map", "find", "position", "all", "any", "filter_map", "into_iter", "rev", "next", "collect") \
+                and 0 <= args[0][1]["end"][1] - args[0][1]["start"][1] <= 4096:
+            # a concrete integer range is the sequence of its values
+            rng = ("array",) + tuple(("int", i_) for i_ in range(args[0][1]["start"][1], args[0][1]["end"][1]))
+            args = [rng] + list(args[1:])
+            if short in ("find", "position", "all", "any", "map", "filter_map"):
+                seq = rng
+                if short == "map":
+                    return ("array",) + tuple(self.apply(args[1], [x]) for x in seq[1:])
+                if short == "filter_map":
+                    out_ = [self.apply(args[1], [x]) for x in seq[1:]]
+                    return ("array",) + tuple(o[1] for o in out_ if o[0] == "some")
+                if short == "all":
+                    return ("bool", all(self.truth(self.apply(args[1], [x])) for x in seq[1:]))
+                if short == "any":
+                    return ("bool", any(self.truth(self.apply(args[1], [x])) for x in seq[1:]))
+                for i_, x in enumerate(seq[1:]):
+                    if self.truth(self.apply(args[1], [x])):
+                        return ("some", x) if short == "find" else ("some", ("int", i_))
+                return ("none",)
+            if short in ("into_iter", "collect"):
+                return rng
+        elif args and args[0][0] == "rec" and set(args[0][1]) == {"start", "end"} and all(v[0] == "int" for v in args[0][1].values()) \
+                and short in ("map", "find", "position", "all", "any") and args[0][1]["end"][1] < args[0][1]["start"][1]:
+            return {"map": ("array",), "find": ("none",), "position": ("none",), "all": ("bool", True), "any": ("bool", False)}[short]   # empty range
         if self.concrete_strings and short == "new" and not args and any(x in str(e.get("ty", "")) for x in ("VecDeque<", "Vec<")):
             return ("array",)
-        if args and args[0][0] == "array" and self.concrete_strings:
+        if args and args[0][0] == "array" and (self.concrete_strings or short in ("map", "find", "position")):
             seq = args[0]
             if short == "map" and len(args) == 2:
                 return ("array",) + tuple(self.apply(args[1], [x]) for x in seq[1:])
